@@ -81,6 +81,31 @@ class Closure:
         self.lam = lam
 
 
+def subst_term(t, mapping):
+    """replace sub-terms (DAG-safe)"""
+    memo = {}
+
+    def rec(x):
+        if not isinstance(x, Term):
+            if isinstance(x, tuple):
+                return tuple(rec(y) for y in x)
+            return x
+        r = memo.get(x)
+        if r is not None:
+            return r
+        if x in mapping:
+            r = mapping[x]
+        elif not x.args:
+            r = x
+        else:
+            args = tuple(rec(y) for y in x.args)
+            r = x if all(p is q for p, q in zip(args, x.args)) else Term(x.op, *args)
+        memo[x] = r
+        return r
+
+    return rec(t)
+
+
 def _vectorise(t, elem, whole, lv):
     """[f(x) for x in arr]  ->  f(arr) when f is elementwise: replace the element by the
     array; phi nodes become elementwise selections; None if the loop variable survives"""
@@ -626,6 +651,20 @@ class Interp:
             region = self.api.index_shape(self, base, idx, st, stmt)
             if region is not None and v.shape is not None:
                 self.api.broadcast(self, region, v.shape, st, stmt, what="store")
+        if idx.kind == "diagidx" and base.kind == "arr" and base.shape is not None and len(base.shape) == 2 and base.shape[0] == base.shape[1]:
+            # a[diag_indices] = diag(a) + c   is   a + c I
+            dgo = T("diagof", base.term)
+            t = v.term
+            c = None
+            if t.op == "add" and v.shape is not None:
+                if t.args[0] == dgo:
+                    c = t.args[1]
+                elif t.args[1] == dgo:
+                    c = t.args[0]
+            if c is not None:
+                new = base.replace(term=T("add", base.term, T("smul", c, T("eye", self.api.dim_term(base.shape[0])))), labels=base.labels | v.labels, has_const=False, const_=None, items=None)
+                self.rebind(base, new, st)
+                return
         blk = self._block_store(base, idx, v)
         new = base.replace(term=blk if blk is not None else T("store", base.term, idx.term, v.term), labels=base.labels | v.labels | idx.labels, has_const=False, const_=None, items=None)
         self.rebind(base, new, st)
@@ -966,11 +1005,13 @@ class Interp:
         # pass 2 with head symbols
         head = st.copy()
         ordinal = {}
+        head_terms = {}
         for where, key in changed:
             init = self._get_binding(pre, where, key)
             k = (init.term if init is not None else None)
             ordinal[k] = ordinal.get(k, 0) + 1
             hv = self._head_value(init, lid, ordinal[k], probe_v=self._get_binding(probe, where, key))
+            head_terms[(where, key)] = hv.term
             self._set_binding(head, where, key, hv)
         alive2, cterm, rets = run(head)
         fr.loop_depth -= 1
@@ -993,6 +1034,11 @@ class Interp:
                 init = init.items[0].replace(term=init.term) if init.items else None
             initt = init.term if init is not None and init.kind != "undef" else T("undef")
             cond_t = cterm.term if cterm is not None else iter_term
+            if is_for and alive2:
+                asc = self._append_loop_as_comp(it, lid, init, head_terms.get((where, key)), body_v)
+                if asc is not None:
+                    self._set_binding(out, where, key, asc)
+                    continue
             term = T("loop", lid, cond_t, initt, body_v.term if body_v is not None else T("undef"))
             base = body_v if body_v is not None else init
             shape = None
@@ -1354,16 +1400,52 @@ class Interp:
         elt = elt_fn(st)
         fr.loop_depth -= 1
         self._restore_locals(st, saved, n)
-        if not conds and it.kind == "arr" and it.shape is not None and len(it.shape) == 1 and elt.shape == ():
+        return self._mk_comp(it, lid, elt, [c.term for c in conds])
+
+    def _mk_comp(self, it, lid, elt, cond_terms):
+        if not cond_terms and it.kind == "arr" and it.shape is not None and len(it.shape) == 1 and elt.shape == ():
             vt = _vectorise(elt.term, T("getitem", it.term, T("lv", lid)), it.term, T("lv", lid))
             if vt is not None:
                 return V("list", vt, items=None, labels=it.labels | elt.labels, orig=frozenset([FRESH]), extra=("comp", elt, tuple(it.shape)), loc=fresh_id())
-        term = T("comp", lid, it.term, elt.term, *[c.term for c in conds])
-        n_items = self.api.length_dim(self, it) if not conds else None
+        term = T("comp", lid, it.term, elt.term, *cond_terms)
+        n_items = self.api.length_dim(self, it) if not cond_terms else None
         shape = None
         if elt.shape is not None:
             shape = ((n_items if n_items is not None else Dim.unknown("comp")),) + tuple(elt.shape)
         return V("list", term, items=None, labels=it.labels | elt.labels, orig=frozenset([FRESH]), extra=("comp", elt, shape), loc=fresh_id())
+
+    def _append_loop_as_comp(self, it, lid, init, head_t, body_v):
+        """L = []; for x in xs: [if c:] L.append(e)   ==   [e for x in xs [if c]]
+        when neither e nor c reads a loop-carried value"""
+        if it is None or init is None or init.kind != "list" or init.items is None or len(init.items) != 0 or body_v is None or body_v.kind != "list":
+            return None
+        t = body_v.term
+        conds = []
+        while t.op == "phi" and len(t.args) == 3:
+            c, x, y = t.args
+            if y == head_t:
+                conds.append(c)
+                t = x
+            elif x == head_t:
+                conds.append(T("not", c))
+                t = y
+            else:
+                return None
+        if t.op != "append" or t.args[0] != head_t:
+            return None
+        last = body_v.extra[1] if isinstance(body_v.extra, tuple) and body_v.extra and body_v.extra[0] == "last" and body_v.extra[1].term == t.args[1] else None
+        if last is None and not conds:
+            return None
+        if last is None:
+            last = V("unk", t.args[1], labels=body_v.labels)
+        for x in [t.args[1]] + conds:
+            for y in x.walk():
+                if (y.op == "head" and y.args[0] == lid) or (y.op == "loopctl"):
+                    return None
+        cid = "C" + lid[1:]
+        m = {T("lv", lid): T("lv", cid)}
+        elt = last.replace(term=subst_term(last.term, m))
+        return self._mk_comp(it, cid, elt, [subst_term(c, m) for c in conds])
 
     def _restore_locals(self, st, saved, n):
         # comprehension variables do not leak
